@@ -58,6 +58,15 @@ def cases(tier, seed):
         for pre in ("abandoned-other", "abandoned-same", "server-abort-other", "server-abort-same"):
             for crc in ("granted", "not-requested"):
                 out.append({"n": n, "crc": crc, "D": 1 if tier == "quick" else 2, "seed": seed, "pre": pre})
+    # an interface that re-uses its receive buffer for every frame it hands to the library
+    for n in (1, 7, 8, 15, 22, 64, 900):
+        for crc in ("granted", "not-requested"):
+            out.append({"n": n, "crc": crc, "D": 1 if n <= 22 else 0, "seed": seed, "reuse_rx": True})
+    # timing attributes set by the application: a slow (conformant) server and a client whose time-out was raised
+    for n in (8, 22, 64, 900):
+        for how in ("instance", "class"):
+            for crc in ("granted", "not-requested"):
+                out.append({"n": n, "crc": crc, "D": 0, "seed": seed, "slow": 0.5, "timeout": 3.0, "timeout_on": how})
     # length sweep: every length up to two full 127-segment blocks (thorough: four), undisturbed; CRC / size indication /
     # payload family rotating with the length
     top = 1800 if tier == "quick" else 3600
@@ -154,6 +163,16 @@ def one(case, ch):
         simenv.W.timeouts = 0
         armed["on"] = True
     err = got = None
+    restore = None
+    link.reuse_rx = bool(case.get("reuse_rx"))
+    if case.get("slow"):
+        link.delay = case["slow"]
+        if case["timeout_on"] == "instance":
+            link.node.sdo.RESPONSE_TIMEOUT = case["timeout"]
+        else:
+            cls = type(link.node.sdo)
+            restore = (cls, cls.RESPONSE_TIMEOUT)
+            cls.RESPONSE_TIMEOUT = case["timeout"]
     try:
         kw = {} if case.get("buffering") is None else {"buffering": case["buffering"]}
         with link.node.sdo.open(MUX[0], MUX[1], "rb", block_transfer=True,
@@ -177,6 +196,8 @@ def one(case, ch):
                 got = fp.read()
     except Exception as e:  # noqa: BLE001
         err = e
+    if restore is not None:
+        restore[0].RESPONSE_TIMEOUT = restore[1]
     acks = [(f[1], f[2]) for f in map(bytes.fromhex, srv.frames) if f[0] == 0xA2]
     return dict(err=err, got=got, data=data, faults=st["faults"], viol=list(srv.violations), completed=list(srv.completed),
                 acks=acks, timeouts=simenv.W.timeouts, ack_log=list(srv.ack_log), nseg=st["i"], crc_used=case["crc"] == "granted", frames=link.client_frames,
